@@ -44,7 +44,6 @@ var c17SMTPVariants = []c17Dec{
 // c17Preamble is put in front of every script: verdicts built at load time.
 const c17Preamble = "V451 = smtp.deny(451, \"t\")\nV552 = smtp.deny(552, \"other\")\n"
 
-
 // what a before.message_stored variant stands for.
 type c17MS struct {
 	Lua       string
